@@ -129,7 +129,7 @@ def synth_preload(rng, n):
 
 def gen_inputs(tier, rng):
     thorough = tier == "thorough"
-    n_inv = 600 if thorough else 40
+    n_inv = 400 if thorough else 40
     n_util = 60 if thorough else 6
     maxpix = 22 if thorough else 14
     for i in range(n_inv):
